@@ -1329,7 +1329,7 @@ class Executor:
             enum, seq = True, itv.obj[1]
         if not isinstance(seq, (VArr, VSlice, VSeq)):
             raise Unsupported("for over %r" % (seq,))
-        gi = "__i%d" % node.lineno
+        gi = "__i%d" % self.loop_index.get(id(node), 0)
         s.env[gi] = VInt(0)
         n = str_len(seq)
 
